@@ -9,8 +9,8 @@
 From Coq Require Import List ZArith NArith Bool Arith String.
 Import ListNotations.
 From DD Require Import Base.PyStr Base.Value Path.PathModel Diff.Tree Diff.DiffModel Diff.DiffShow
-  Diff.DiffFaithful Delta.DeltaModel Delta.DeltaVerify Delta.DeltaVerifyDiff Delta.DeltaVerifyIndep Delta.DeltaVerifyEx
-  Delta.DeltaReverse Delta.DeltaReverseDiff Delta.DeltaReverseInplace Delta.DeltaReverseDiffInplace Delta.DeltaReverseTuple Delta.DeltaReverseSeq.
+  Diff.DiffFaithful Delta.DeltaModel Delta.DeltaGuard Delta.DeltaRun Delta.DeltaGood Delta.DeltaChain Delta.DeltaVerify Delta.DeltaVerifyDiff Delta.DeltaVerifyIndep Delta.DeltaVerifyEx
+  Delta.DeltaReverse Delta.DeltaReverseDiff Delta.DeltaReverseInplace Delta.DeltaReverseDiffInplace Delta.DeltaReverseTuple Delta.DeltaReverseSeq Delta.DeltaReverseC01.
 
 (* ================================================================== *)
 (* 1. a non-bidirectional delta refuses subtraction                    *)
@@ -434,3 +434,83 @@ Theorem C08_back_and_forth_partial :
       run_seq conv ro ao d (alternating Minus k) v2 = Some (if Nat.even k then v2 else v1, 0).
 Proof. intros conv ro ao H. exact (inplace_back_and_forth_any conv ro ao H). Qed.
 Print Assumptions C08_back_and_forth_partial.
+
+(* ================================================================== *)
+(* 7. with C01 plugged in (Delta/DeltaRoundtrip.v)                     *)
+(* ================================================================== *)
+(* For the bidirectional delta of a diff that reports value / type changes at
+   one path each: under the guards of C01 ([guards]: wf, no ==-equal atoms of
+   different type, tuples of atoms of equal length; injective set-member hash,
+   typed constructor oracle, valid opcodes, sorted visiting orders) and the
+   guards of the independence theorem, the sum t1 + d exists without error, is
+   t2 up to dict / set order, and subtracting d from it gives back t1 exactly *)
+Theorem C08_add_then_sub_of_diff :
+  forall hatom udiff ops c conv always,
+    (forall a b, hatom a = hatom b -> a = b) ->
+    (forall ty0 v v', conv ty0 v = Some v' -> type_of v' = ty0) ->
+  forall ro ao, ro_ok ro -> ao_ok ao ->
+    (forall p xs ys, forallb is_atom xs = true -> forallb is_atom ys = true -> valid_ops xs ys (ops p xs ys)) ->
+  forall t1 t2,
+    guards c conv true always t1 t2 ->
+    zip c = true \/ ops_disjoint ops -> thr_num c <= thr_den c -> keys_nonneg t2 = true ->
+    let r := run_diff hatom udiff ops nos nos c t1 t2 in
+    let d := to_delta conv true always ops t1 t2 (fst r) (snd r) in
+    snd r = [] -> Forall inplace_entry (fst r) ->
+    (forall e, In e (fst r) -> ntp t1 (npath (ep1 e))) ->
+    exists t2', apply conv ro ao d t1 = (t2', 0) /\ veqb t2' t2 = true /\
+                sub conv ro ao d t2' = Some (t1, 0).
+Proof. exact add_then_sub_of_diff. Qed.
+Print Assumptions C08_add_then_sub_of_diff.
+
+(* ... every +,-,+,... sequence of any length moves between t1 and that sum ... *)
+Theorem C08_back_and_forth_of_diff :
+  forall hatom udiff ops c conv always,
+    (forall a b, hatom a = hatom b -> a = b) ->
+    (forall ty0 v v', conv ty0 v = Some v' -> type_of v' = ty0) ->
+  forall ro ao, ro_ok ro -> ao_ok ao ->
+    (forall p xs ys, forallb is_atom xs = true -> forallb is_atom ys = true -> valid_ops xs ys (ops p xs ys)) ->
+  forall t1 t2,
+    guards c conv true always t1 t2 ->
+    zip c = true \/ ops_disjoint ops -> thr_num c <= thr_den c -> keys_nonneg t2 = true ->
+    let r := run_diff hatom udiff ops nos nos c t1 t2 in
+    let d := to_delta conv true always ops t1 t2 (fst r) (snd r) in
+    snd r = [] -> Forall inplace_entry (fst r) ->
+    (forall e, In e (fst r) -> ntp t1 (npath (ep1 e))) ->
+    exists t2', veqb t2' t2 = true /\
+      forall k,
+        run_seq conv ro ao d (alternating Plus k) t1 = Some (if Nat.even k then t1 else t2', 0) /\
+        run_seq conv ro ao d (alternating Minus k) t2' = Some (if Nat.even k then t2' else t1, 0).
+Proof. exact back_and_forth_of_diff. Qed.
+Print Assumptions C08_back_and_forth_of_diff.
+
+(* ... and when t2 holds no dict / set the sum is t2 itself: the first two
+   clauses of the property, unconditionally on that fragment *)
+Theorem C08_sub_inverts_of_diff_ordfree :
+  forall hatom udiff ops c conv always,
+    (forall a b, hatom a = hatom b -> a = b) ->
+    (forall ty0 v v', conv ty0 v = Some v' -> type_of v' = ty0) ->
+  forall ro ao, ro_ok ro -> ao_ok ao ->
+    (forall p xs ys, forallb is_atom xs = true -> forallb is_atom ys = true -> valid_ops xs ys (ops p xs ys)) ->
+  forall t1 t2,
+    guards c conv true always t1 t2 ->
+    zip c = true \/ ops_disjoint ops -> thr_num c <= thr_den c -> keys_nonneg t2 = true ->
+    let r := run_diff hatom udiff ops nos nos c t1 t2 in
+    let d := to_delta conv true always ops t1 t2 (fst r) (snd r) in
+    snd r = [] -> Forall inplace_entry (fst r) ->
+    (forall e, In e (fst r) -> ntp t1 (npath (ep1 e))) ->
+    ordfree t2 = true ->
+    apply conv ro ao d t1 = (t2, 0) /\ sub conv ro ao d t2 = Some (t1, 0).
+Proof. exact sub_inverts_of_diff_ordfree. Qed.
+Print Assumptions C08_sub_inverts_of_diff_ordfree.
+
+(* the guards on the data hold together for the nested example pair *)
+Theorem C08_add_then_sub_of_diff_data_guards_instance :
+  guardsb ex_cfg true false ex_t1 ex_t2 = true /\ zip ex_cfg = true /\ keys_nonneg ex_t2 = true /\
+  snd ex_r = [] /\ Forall inplace_entry (fst ex_r) /\
+  (forall e, In e (fst ex_r) -> ntp ex_t1 (npath (ep1 e))).
+Proof.
+  split; [vm_compute; reflexivity|].
+  destruct C08_sub_inverts_of_diff_partial_instance as (Z & _ & _ & N & R & I & _ & T & _).
+  repeat split; assumption.
+Qed.
+Print Assumptions C08_add_then_sub_of_diff_data_guards_instance.
